@@ -178,6 +178,9 @@ Definition run_struct (e : N) (a : list bytes) : option (res (list bytes)) :=
   (* validators regenerated from the Go source (Gen/Validators.v), run on model values *)
   else if e =? E_LS2Validate then Some (do p <- read_lease_set2 a0; Ok [outB (ls2_validate (fst p))])
   else if e =? E_NewLS2Check then Some (Ok [outB (new_ls2_check true (argN a0) (argN a1) (arg 2 a) (arg 3 a) (argN (arg 4 a)))])
+  (* KeyCertificate.ConstructSigningPublicKey / ConstructPublicKey on data of any length *)
+  else if e =? E_ConstructSPK then Some (do kr <- new_key_certificate a0; one (construct_signing_public_key (fst kr) a1))
+  else if e =? E_ConstructPK then Some (do kr <- new_key_certificate a0; one (construct_public_key (fst kr) a1))
   else if e =? E_NewELSCheck then Some (Ok [outB (new_els_check (argN a0) a1 (argN (arg 2 a)) (argN (arg 3 a)) (arg 4 a) (arg 5 a))])
   else None.
 
